@@ -234,7 +234,20 @@ def run_batch(args: tuple[str, list[dict]]) -> list[dict]:
             for ev in res['events']:
                 lines.append(dict(ev))
             applied = 1 if res['fault'] and res['fault']['applied'] else 0
-            lines.append({'ev': 'end', 'finished': 1 if res.get('finished') else 0, 'crash': 1 if res['crash'] else 0,
+            # has an earlier media segment of the same Representation been fetched in this session?
+            pred = 0
+            if res['fault'] and res['fault']['applied'] and res['fault']['target'] == 'media':
+                furl = res['fault']['url'].split('?')[0]
+                fdir = furl.rsplit('/time/', 1)[0] if '/time/' in furl else furl.rsplit('/', 1)[0]
+                for fe in res['fetches']:
+                    u0 = fe['url'].split('?')[0]
+                    if u0 == furl:
+                        break
+                    if fe['kind'] == 'media' and fe['status'] in (200, 206) and s['mode'] != 'odvod' and \
+                            (u0.rsplit('/time/', 1)[0] if '/time/' in u0 else u0.rsplit('/', 1)[0]) == fdir:
+                        pred = 1
+            lines.append({'ev': 'end', 'target': (res['fault'] or {}).get('target') or 'none', 'pred': pred,
+                          'finished': 1 if res.get('finished') else 0, 'crash': 1 if res['crash'] else 0,
                           'crash_text': res['crash'], 'applied': applied, 'nerr': len(res['errors']),
                           'errors': loc[:40], 'loops': res['loops'],
                           'messages': [f"{e['msg'][:160]} [{e['file']}:{e['line']}] @{e['location']}" for e in res['errors'][:6]],
@@ -251,9 +264,11 @@ def main(tier_: str) -> int:
         'the validator is driven as upstream drives it (tests/mixins/check_manifest.py): load, then validate / sleep / refresh until finished(), '
         'with the database\'s representation info handed to it after every load; unlike upstream the loop does not stop at the first error',
         'asyncio.sleep is virtual: it advances the application clock; the worker pool runs tasks inline, so a session is one deterministic schedule',
-        'an error is "located at the corrupted element" when its line range lies in the AdaptationSet/Representation owning the corrupted '
-        'segment (or is the corrupted element / its parent for manifest faults), or its message quotes the URL / file name, or names the '
-        'corrupted box / attribute - the weakest reading; only a session none of whose errors satisfies any of the three fails C18_Located',
+        'an error is "located at the corrupted element": for a media segment that follows an already fetched segment of the same '
+        'Representation, when its message quotes the segment\'s own name (every MediaSegment error is prefixed with it; an error about a '
+        'neighbouring segment does not count); for the first segment of a Representation, init segments and manifests, when '
+        'its line range lies in the owning AdaptationSet/Representation (or is the corrupted element / its parent), or its message quotes the '
+        'URL / file name, or names the corrupted box / attribute - the weakest reading',
         'a session whose fault never found an applicable response (occurrence beyond the session) is a pristine session: no errors expected',
         'termination is judged within 30 validate loops (upstream allows 100 for live, 2 otherwise)',
     ]
